@@ -273,19 +273,26 @@ func C10(r *h.Run) {
 			// third attempt: no deadline at all; fourth: one too far away to express (Connect: more
 			// than 10 digits of milliseconds). Neither may announce a timeout — least of all the
 			// one left in the header by an earlier attempt
+			// (each of the two directly after an attempt that did announce one)
 			deadline = time.Now().Add(1 << 62)
-			_, _ = client.CallUnary(context.Background(), req)
 			farCtx, farCancel := context.WithDeadline(context.Background(), deadline)
 			_, _ = client.CallUnary(farCtx, req)
 			farCancel()
-			if len(seen) == 4 {
+			deadline = time.Now().Add(3 * time.Second)
+			nearCtx, nearCancel := context.WithDeadline(context.Background(), deadline)
+			_, _ = client.CallUnary(nearCtx, req)
+			nearCancel()
+			deadline = time.Now().Add(1 << 62)
+			_, _ = client.CallUnary(context.Background(), req)
+			if len(seen) == 5 {
+				seen[2], seen[3], seen[4] = seen[4], seen[2], seen[3] // [.., .., none, far, near]
 				if len(seen[2]) != 0 {
 					r.Fail(h.Failure{Key: proto + "-client/timeout-without-deadline", Family: "client_reuse", What: "a request re-sent on a context without a deadline announces a timeout (left over from an earlier attempt): the handler's context gets a deadline the client does not have",
-						Input: map[string]any{"proto": proto, "request_header_preset": stale, "attempts": "deadline in 5h, in 200ms, then the same request with no deadline"}, Actual: seen})
+						Input: map[string]any{"proto": proto, "request_header_preset": stale, "attempts": "deadline in 5h, in 200ms, 146 years away, in 3s, then the same request with no deadline"}, Actual: seen})
 				}
 				if hname == "Connect-Timeout-Ms" && len(seen[3]) != 0 {
 					r.Fail(h.Failure{Key: proto + "-client/inexpressible-not-omitted", Family: "client_reuse", What: "a remaining time too large to express was not sent as 'no timeout' (an earlier attempt's value went out instead)",
-						Input: map[string]any{"proto": proto, "request_header_preset": stale, "attempts": "deadline in 5h, in 200ms, none, then the same request with a deadline 146 years away"}, Actual: seen})
+						Input: map[string]any{"proto": proto, "request_header_preset": stale, "attempts": "deadline in 5h, in 200ms, then the same request with a deadline 146 years away"}, Actual: seen})
 				}
 				seen, remaining = seen[:2], remaining[:2]
 			}
